@@ -680,12 +680,14 @@ func (s *DDSketchWithExactSummaryStatistics) Add(value float64) error {
 }
 
 func (s *DDSketchWithExactSummaryStatistics) AddWithCount(value, count float64) error {
-	if count == 0 {
-		return nil
-	}
 	err := s.DDSketch.AddWithCount(value, count)
 	if err != nil {
 		return err
+	}
+	if count == 0 {
+		// The value is not tracked: it must not be accounted for in the
+		// minimum and the maximum.
+		return nil
 	}
 	s.summaryStatistics.Add(value, count)
 	return nil
